@@ -492,6 +492,57 @@ def ob_scatter(case, seed):
     return Verdict(DISCHARGED, backend="native run of the real Assembly() vs dense loop, integer-valued data (exact)", sub=n)
 
 
+def ob_assembly_independent():
+    """the matrices returned by the public Assembly are independent objects: an in-place scipy operation of the caller on one of them (K.eliminate_zeros(), K.sort_indices(),
+    K.indices[...] = ...) changes neither another returned matrix nor what the next Assembly returns (the memoised sparsity pattern is not handed out)"""
+    import contextlib, io
+    from EasyFEA import Models, Simulations, ElemType
+    from EasyFEA.Geoms import Domain, Point
+    with contextlib.redirect_stdout(io.StringIO()):
+        mesh = Domain(Point(), Point(1, 1), 0.25).Mesh_2D([], ElemType.TRI3, isOrganised=True)
+    simu = Simulations.Thermal(mesh, Models.Thermal(k=1, c=1, thickness=1))
+    pt = simu.problemType
+
+    def dense(slot):
+        Ndof = simu.mesh.Nn
+        ref = np.zeros((Ndof, Ndof))
+        for group, KCMF in simu.Construct_local_matrix_system(pt).items():
+            if KCMF[slot] is None:
+                continue
+            X_e, a = np.asarray(KCMF[slot]), group.Get_assembly_e(1)
+            for e in range(a.shape[0]):
+                ref[np.ix_(a[e], a[e])] += X_e[e]
+        return ref
+    Kr, Cr = dense(0), dense(1)
+    K, C, M, F = simu.Assembly(pt)
+    zeros = int((K.data == 0).sum())
+    if zeros == 0:
+        raise Unsupported("the structured mesh stores no exact zero in K")
+    K.eliminate_zeros()                     # the caller only touches K
+    try:
+        eC = float(np.abs(C.toarray() - Cr).max() / np.abs(Cr).max())
+    except Exception as ex:
+        eC = float("inf")
+    if not eC < 1e-12:
+        raise Refuted(f"after K.eliminate_zeros() on the K returned by Assembly ({zeros} stored zeros), the returned C, which the caller did not touch, differs from the scatter-add by {eC:.3e}: "
+                      "the returned matrices share their index arrays", cex=dict(history=["Assembly", "K.eliminate_zeros()", "read C"]), signature="assembly:shared:C", replay=dict(confirmed=True, rel_err=eC))
+    simu.Need_Update()
+    K2, C2, _, _ = simu.Assembly(pt)
+    try:
+        eK = float(np.abs(K2.toarray() - Kr).max() / np.abs(Kr).max())
+    except Exception:
+        eK = float("inf")
+    if not eK < 1e-12:
+        raise Refuted(f"after K.eliminate_zeros() on a matrix returned by Assembly, the NEXT Assembly differs from the scatter-add by {eK:.3e}: the memoised sparsity pattern was handed out and modified",
+                      cex=dict(history=["Assembly", "K.eliminate_zeros()", "Need_Update", "Assembly"]), signature="assembly:shared:pattern", replay=dict(confirmed=True, rel_err=eK))
+    K2.indices[:] = 0
+    K3 = simu.Assembly(pt)[0]
+    eK3 = float(np.abs(K3.toarray() - Kr).max() / np.abs(Kr).max())
+    if not eK3 < 1e-12:
+        raise Refuted(f"writing into the indices of a returned matrix changes the next Assembly ({eK3:.3e})", signature="assembly:shared:indices", replay=dict(confirmed=True))
+    return Verdict(DISCHARGED, backend="native", sub=3)
+
+
 def build(tier, seed):
     obs = []
     nPes = _nPes()
@@ -536,6 +587,8 @@ def build(tier, seed):
         obs.append(Ob(f"C03.forms.scatter.{kind}", C13.ob_assemble_scatter, (kind,), "X", (f"EasyFEA/FEM/_forms.py::{cls}.Assemble",),
                       bound="TRI3 scalar convection form and QUAD4 vector shear form on two-element patches",
                       clause="Assemble(field) == sum_e scatter(Integrate_e) with K_e[e,i,j] at (a[e,i], a[e,j])", timeout=120))
+    obs.append(Ob("C03.assembly.independent", ob_assembly_independent, (), "X", (f"{SP}::_Simu.__Assemble_csr", f"{SP}::_Simu.__Get_csr_map"), bound="one structured TRI3 thermal problem, three in-place operations of the caller",
+                  clause="matrices returned by Assembly do not share index arrays with each other or with the memoised pattern: later assemblies are still the exact scatter-add", timeout=120))
     obs.append(Ob("canary.assembly_e", ob_assembly, (4, 2, True), "P", expect=REFUTED, timeout=60))
     functions = {q: extract.get(GP, f"_GroupElem.{q}").describe() for q in ("_Get_assembly_e", "Get_rows_e", "Get_columns_e")}
     for q in ("Assembly", "__Assemble_csr", "__Get_csr_map"):
